@@ -20,7 +20,9 @@ from . import h5util as H
 
 ID = "C10"
 MOD = "harness.props.c10"
-LEAN = dict(modules=[], theorems=[], drivers=["drv_mrg"])
+LEAN = dict(modules=["MetadorModel.Props.C10"],
+            theorems=["MetadorModel.C10." + n for n in ['stub_identity', 'stub_patch_accepted', 'stub_patch_same_block']],
+            drivers=["drv_mrg"])
 
 
 def _sha(p):
